@@ -31,6 +31,11 @@ type c05Lane struct {
 	Terminate bool   `json:"terminate"`
 	WaitMs    int    `json:"wait_ms"` // offline time before the reconnect
 	Clean2    bool   `json:"clean2"`
+	// third phase (Wait2Ms > 0): the second connection asks for Expiry2 (v5), is killed, and after Wait2Ms a third
+	// CONNECT without Clean Start arrives: the session must be there iff the interval of the SECOND connection has
+	// not elapsed since its end - whatever the first connection had asked for
+	Expiry2 int `json:"expiry2_s,omitempty"`
+	Wait2Ms int `json:"wait2_ms,omitempty"`
 }
 
 type c05Scen struct {
@@ -53,6 +58,10 @@ func genC05(t *rapid.T) c05Scen {
 				l.End = "disconnect_expiry"
 				l.NewExpiry = rapid.SampledFrom([]int{0, 1, 2, 100}).Draw(t, "newexpiry")
 			}
+		}
+		if rapid.Bool().Draw(t, "phase3") {
+			l.Expiry2 = rapid.SampledFrom([]int{1, 2, 100}).Draw(t, "expiry2")
+			l.Wait2Ms = rapid.SampledFrom([]int{400, 1500, 2600}).Draw(t, "wait2")
 		}
 		s.Lanes = append(s.Lanes, l)
 	}
@@ -171,7 +180,11 @@ func runC05(s c05Scen, c *ev.Case) *ev.Violation {
 		}
 		time.Sleep(time.Until(end.hi.Add(time.Duration(l.WaitMs) * time.Millisecond)))
 		r0 := time.Now()
-		cl2, ack2, err := connect(l.Clean2, 100)
+		exp2 := 100
+		if l.Wait2Ms > 0 {
+			exp2 = l.Expiry2
+		}
+		cl2, ack2, err := connect(l.Clean2, exp2)
 		if err != nil || ack2 == nil || ack2.ReasonCode != 0 {
 			return fail(ev.Violf("C05.reconnect", "reconnect failed: %v %v", ack2, err))
 		}
@@ -246,6 +259,81 @@ func runC05(s c05Scen, c *ev.Case) *ev.Violation {
 		}
 		if !wantSP && (gotOffline || gotProbe) {
 			return fail(ev.Violf("C05.state-leaked", "new empty session (Session Present 0) but offline message received=%v, old subscription delivering=%v", gotOffline, gotProbe))
+		}
+		if l.Wait2Ms == 0 {
+			return o
+		}
+		// ---- third phase: the session now lives by what the SECOND connection asked for ----
+		eff2 := 0
+		if l.V != 5 {
+			if !l.Clean2 {
+				eff2 = s.CfgExpiryS
+			}
+		} else {
+			eff2 = minInt(l.Expiry2, s.CfgExpiryS)
+		}
+		if code, err := subscribeOne(cl2, 9, subSpec{Filter: topic + "/2", QoS: 1}); err != nil || code != 1 {
+			return fail(harnessErr("subscribe (second connection): %v %v", code, err))
+		}
+		var end2 ival
+		end2.lo = time.Now()
+		cl2.Kill()
+		if !waitClientGone(b, id) {
+			return fail(harnessErr("client still registered 5 s after close"))
+		}
+		end2.hi = time.Now()
+		b.Srv.Publisher().Publish(&gmqtt.Message{Topic: topic + "/2", QoS: 1, Payload: []byte("offline2-" + id)})
+		time.Sleep(time.Until(end2.hi.Add(time.Duration(l.Wait2Ms) * time.Millisecond)))
+		q0 := time.Now()
+		cl3, ack3, err := connect(false, 100)
+		if err != nil || ack3 == nil || ack3.ReasonCode != 0 {
+			return fail(ev.Violf("C05.reconnect", "third connect failed: %v %v", ack3, err))
+		}
+		q1 := time.Now()
+		defer cl3.Kill()
+		off2Lo, off2Hi := q0.Sub(end2.hi), q1.Sub(end2.lo)
+		life2 := time.Duration(eff2) * time.Second
+		o.labels = append(o.labels, "third_connection")
+		want3, decided3 := false, true
+		switch {
+		case eff2 == 0:
+			want3 = false
+		case off2Hi < life2-timingMargin:
+			want3 = true
+		case off2Lo > life2+timingMargin:
+			want3 = false
+		default:
+			decided3 = false
+		}
+		logf("third phase: second connection asked for %ds (effective %ds), offline in [%v,%v] => Session Present expected %v (decided %v), got %v", l.Expiry2, eff2, off2Lo, off2Hi, want3, decided3, ack3.SessionPresent)
+		if !decided3 {
+			o.inconclusive = true
+			return o
+		}
+		if eff != eff2 {
+			o.labels = append(o.labels, "expiry_changed_by_second_connect")
+		}
+		if ack3.SessionPresent != want3 {
+			return fail(ev.Violf("C05.session-present", "third CONNECT (no Clean Start): Session Present = %v, expected %v: the second connection asked for a session expiry of %ds (effective %ds) and ended %v..%v ago; the first connection's effective expiry was %ds", ack3.SessionPresent, want3, l.Expiry2, eff2, off2Lo, off2Hi, eff).
+				With("want", want3, "phase", 3, "eff1", eff, "eff2", eff2))
+		}
+		if err := subscribeSentinel(cl3); err != nil {
+			return fail(harnessErr("%v", err))
+		}
+		if err := sentinelBarrier(b, []*fixture.Client{cl3}, "end3"+id); err != nil {
+			return fail(ev.Violf("C05.barrier", "%v", err))
+		}
+		got2 := false
+		for _, r := range cl3.All() {
+			if r.P.Type == mw.PUBLISH && string(r.P.Payload) == "offline2-"+id {
+				got2 = true
+			}
+		}
+		if want3 && !got2 {
+			return fail(ev.Violf("C05.state-lost", "third connection resumed the session (Session Present 1) but the message queued while it was offline did not arrive"))
+		}
+		if !want3 && got2 {
+			return fail(ev.Violf("C05.state-leaked", "third connection started an empty session but received the message queued for the previous one"))
 		}
 		return o
 	})
